@@ -1,0 +1,7 @@
+//go:build !verif
+
+package aof
+
+func verifPoint(name string) {}
+
+func verifPointCmd(name string, database int, data []byte) {}
